@@ -359,6 +359,9 @@ def call_predicate(fn: Callable, node: Node) -> IterationControl | None | Any:
         return e  # SkipBranch, SelectBranch, StopTraversal
     except StopIteration as e:  # Also accept this builtin exception
         return StopTraversal(e.value)
+    if isinstance(res, type) and issubclass(res, IterationControl):
+        # Also accept the class instead of an instance (like `visit()` does)
+        return res()
     return res
 
 
